@@ -78,7 +78,7 @@ def collective_uniformity(ctx, rep, rule: str, only_classes: set[str] | None = N
                     # one defect, many allocation sites: state is allocated while iterating the rank's own blocks
                     key = f"sink:{sink}@{short(entry_fn)}<-loop-over-rank-local-lists"
                 else:
-                    key = f"sink:{sink}@{short(entry_fn)}<-{o.what}:{short(o.func)}:{_norm(o.node.test if hasattr(o.node, 'test') else getattr(o.node, 'iter', o.node))[:90]}"
+                    key = f"sink:{sink}@{short(entry_fn)}<-{o.what}:{short(o.func)}:{_norm(A.emptiness_normal(o.node.test) if hasattr(o.node, 'test') else getattr(o.node, 'iter', o.node))[:90]}"
                 if key in reported:
                     continue
                 reported.add(key)
@@ -115,16 +115,26 @@ def _cache_exempt(ctx, rt, chain: list[str], cached_fi) -> bool:
             if d and repo.func_by_dotted(d) is cached_fi:
                 out.append(c)
         return out
-    def signature(c):
+    def signature(c, fi):
         dims = _norm(A.keyword(c, "mesh_dim_names"))
-        widths = sorted(_norm(v.args[1]) for v in ast.walk(A.keyword(c, "mesh") or c) if isinstance(v, ast.Call) and isinstance(v.func, ast.Attribute) and v.func.attr == "view" and len(v.args) == 2)
+        # the mesh expression together with the definitions of the single-assignment locals it names (a named reshape is the reshape)
+        seen_names: set[str] = set()
+        exprs = [A.keyword(c, "mesh") or c]
+        for e in exprs:
+            for nm in [x.id for x in ast.walk(e) if isinstance(x, ast.Name) and isinstance(x.ctx, ast.Load)]:
+                if nm not in seen_names and len(exprs) < 12:
+                    seen_names.add(nm)
+                    ds = A.assignments_to(fi.node, nm)
+                    if len(ds) == 1:
+                        exprs.append(ds[0])
+        widths = sorted({_norm(v.args[1]) for e in exprs for v in ast.walk(e) if isinstance(v, ast.Call) and isinstance(v.func, ast.Attribute) and v.func.attr == "view" and len(v.args) == 2})
         return dims, tuple(widths)
-    here = [signature(c) for c in mesh_calls(entering)]
+    here = [signature(c, entering) for c in mesh_calls(entering)]
     init = repo.lookup_method(entering.cls, "__init__")
     if init is None or not here:
         return False
     for c in mesh_calls(init):
-        if signature(c) in here and signature(c)[1]:
+        if signature(c, init) in here and signature(c, init)[1]:
             # that call must itself be in rank-invariant context
             if not rt.local_context(init, c):
                 _, bad = rt.context_offences(init.qual, c)
